@@ -56,7 +56,7 @@ CLAUSE_PROPERTY = {
     'val.residual_fresh': 'C03', 'val.residual_value': 'C03', 'obs.iter_budget': 'C03', 'ver.niter': 'C03', 'conf.sweep': 'C03',
     'conf.start.nact': 'C06', 'conf.start.time': 'C06', 'conf.start.dt': 'C06', 'conf.nact': 'C06',
     'conf.time': 'C06', 'val.recv_is_prev_uend': 'C06', 'val.recv_copies_uend': 'C06', 'val.uend_fresh': 'C06',
-    'val.carry': 'C06', 'val.chain': 'C06', 'val.block_start_value': 'C06', 'val.start_from_u0': 'C06',
+    'val.carry': 'C06', 'val.restart_start_value': 'C09', 'obs.restart_start_time': 'C09', 'val.chain': 'C06', 'val.block_start_value': 'C06', 'val.start_from_u0': 'C06',
     'val.return_is_last_uend': 'C06', 'obs.next_block_start': 'C06', 'obs.contiguous': 'C06',
     'obs.no_start_beyond_tend': 'C06', 'obs.no_early_stop': 'C06', 'ver.chain': 'C06', 'ver.endpoint': 'C06',
     'acc.tile_start': 'C06', 'acc.tile_contiguous': 'C06', 'acc.no_start_beyond_tend': 'C06',
